@@ -505,8 +505,15 @@ def _tojax(repo, col):
     col.check(covered == {"synapse_params", "synapse_states"}, R, tj, "to_jax copies every parameter and state of every synapse type",
               "one jaxedges entry per synapse_params / synapse_states key of each synapse, unconditionally",
               f"to_jax no longer covers all synapse parameters and states (covered: {sorted(covered)})", node=tj.node)
-    g = repo.method("Module", "_get_states_from_nodes_and_edges")
-    col.check("self.base.to_jax()" in unparse(g.node), R, g, "_get_states_from_nodes_and_edges rebuilds before reading", "",
-              "states are read from a stale jaxnodes", node=g.node)
-    w = repo.method("Module", "write_trainables")
-    col.check("self.base.to_jax()" in unparse(w.node), R, w, "write_trainables rebuilds before reading", "", "stale jaxnodes", node=w.node)
+    # the functions that read jaxnodes / jaxedges outside integrate rebuild them first (that the call is on every path is
+    # the must-call obligation of rules/mustcall_table.py; here: it precedes the first read)
+    for g in (repo.method("Module", "_get_states_from_nodes_and_edges"), repo.method("Module", "write_trainables")):
+        calls = [n for n in ast.walk(g.node) if isinstance(n, ast.Call) and isinstance(n.func, ast.Attribute) and n.func.attr == "to_jax"]
+        reads = [n for n in ast.walk(g.node) if isinstance(n, ast.Attribute) and n.attr in ("jaxnodes", "jaxedges")]
+        reads += [n for n in ast.walk(g.node) if isinstance(n, ast.Call) and isinstance(n.func, ast.Attribute) and
+                  n.func.attr in ("get_all_parameters", "get_all_states")]  # callees that read them
+        pos = lambda n: (n.lineno, n.col_offset)
+        ok = bool(calls) and (not reads or min(map(pos, calls)) < min(map(pos, reads)))
+        col.check(ok, R, g, f"{g.name} rebuilds jaxnodes/jaxedges before reading them", "to_jax() precedes the first read",
+                  "jaxnodes / jaxedges are read before (or without) being rebuilt from the current tables: values changed with set() are ignored",
+                  node=(reads or [g.node])[0])
